@@ -61,7 +61,7 @@ func sfCalls(fd *ast.FuncDecl) []*ast.CallExpr {
 	return out
 }
 
-// sfSaveShape reads how key.Save gets the text onto disk. Two shapes are recognised:
+// sfWriterShape reads how one function of common/key/store.go gets the text onto disk. Two shapes are recognised:
 //
 //	in place:  fd := create(filePath); encode(fd)
 //	replace:   tmpPath := filePath + <ext>; fd := create(tmpPath); encode(fd); fd.Sync(); fd.Close();
@@ -70,10 +70,13 @@ func sfCalls(fd *ast.FuncDecl) []*ast.CallExpr {
 // where create is fs.CreateSecureFile / os.Create on the SAME path in both branches of `if secure`.
 // secureOnWritten: the path given to fs.CreateSecureFile is the file the encoder writes into, and
 // that file is what ends up at filePath (itself, or through the rename).
-func sfSaveShape(ks *pkgFile) (inPlace, atomicRename, secureOnWritten bool, err error) {
-	save := sfFindFunc(ks, "", "Save")
+func sfWriterShape(ks *pkgFile, fname string) (inPlace, atomicRename, secureOnWritten bool, err error) {
+	save := sfFindFunc(ks, "", fname)
 	if save == nil {
-		return false, false, false, fmt.Errorf("T-break: key.Save not found")
+		return false, false, false, fmt.Errorf("T-break: key.%s not found", fname)
+	}
+	if !sfSecureBranch(save) {
+		return false, false, false, fmt.Errorf("T-break: key.%s is not `if secure { fs.CreateSecureFile } else { os.Create }`", fname)
 	}
 	var createArgs []string
 	var posCreateMax, posEncode, posSync, posRename, posCloseAfterSync token.Pos
@@ -155,6 +158,128 @@ func sfChain2(e ast.Expr) string {
 	return sfChain(e)
 }
 
+// sfSecureBranch: the function opens its file with `if secure { fs.CreateSecureFile } else { os.Create }`
+func sfSecureBranch(fd *ast.FuncDecl) bool {
+	ok := false
+	ast.Inspect(fd.Body, func(n ast.Node) bool {
+		if is, isIf := n.(*ast.IfStmt); isIf {
+			if id, isID := is.Cond.(*ast.Ident); isID && id.Name == "secure" && is.Else != nil {
+				th, el := "", ""
+				ast.Inspect(is.Body, func(n ast.Node) bool {
+					if c, ok := n.(*ast.CallExpr); ok {
+						th += sfChain(c.Fun) + ";"
+					}
+					return true
+				})
+				ast.Inspect(is.Else, func(n ast.Node) bool {
+					if c, ok := n.(*ast.CallExpr); ok {
+						el += sfChain(c.Fun) + ";"
+					}
+					return true
+				})
+				if th == "fs.CreateSecureFile;" && el == "os.Create;" {
+					ok = true
+				}
+			}
+		}
+		return true
+	})
+	return ok
+}
+
+// sfExpr renders a small boolean / call expression without spaces.
+func sfExpr(e ast.Expr) string {
+	switch x := e.(type) {
+	case *ast.BinaryExpr:
+		return sfExpr(x.X) + x.Op.String() + sfExpr(x.Y)
+	case *ast.UnaryExpr:
+		return x.Op.String() + sfExpr(x.X)
+	case *ast.ParenExpr:
+		return "(" + sfExpr(x.X) + ")"
+	case *ast.CallExpr:
+		args := make([]string, len(x.Args))
+		for i, a := range x.Args {
+			args[i] = sfExpr(a)
+		}
+		return sfExpr(x.Fun) + "(" + strings.Join(args, ",") + ")"
+	case *ast.SelectorExpr:
+		return sfExpr(x.X) + "." + x.Sel.Name
+	case *ast.Ident:
+		return x.Name
+	}
+	return "?"
+}
+
+// sfSaveShape reads key.Save. Either Save is itself one of the two writer shapes (sfWriterShape), or
+// it is the dispatcher
+//
+//	if info, err := os.Lstat(filePath); err == nil && !info.Mode().IsRegular() {
+//		return saveInPlace(filePath, t, secure)
+//	}
+//	return saveReplace(filePath, t, secure)
+//
+// over an in-place writer and a replace writer. inPlace / atomicRename describe what happens to a
+// target that is ABSENT OR A REGULAR FILE (every file of the key store); inPlaceOnlyNonRegular says
+// that the in-place writer is reachable only behind that Lstat guard.
+func sfSaveShape(ks *pkgFile) (inPlace, atomicRename, secureOnWritten, inPlaceOnlyNonRegular bool, err error) {
+	save := sfFindFunc(ks, "", "Save")
+	if save == nil {
+		return false, false, false, false, fmt.Errorf("T-break: key.Save not found")
+	}
+	rep, inp := sfFindFunc(ks, "", "saveReplace"), sfFindFunc(ks, "", "saveInPlace")
+	if rep == nil && inp == nil {
+		i, a, s, err := sfWriterShape(ks, "Save")
+		return i, a, s, !i, err
+	}
+	if rep == nil || inp == nil {
+		return false, false, false, false, fmt.Errorf("T-break: key.Save: only one of saveReplace / saveInPlace exists")
+	}
+	stmts := save.Body.List
+	if len(stmts) != 2 {
+		return false, false, false, false, fmt.Errorf("T-break: key.Save: the dispatcher has %d statements, expected the Lstat guard and the final return", len(stmts))
+	}
+	guard, ok := stmts[0].(*ast.IfStmt)
+	if !ok || guard.Else != nil || guard.Init == nil || len(guard.Body.List) != 1 {
+		return false, false, false, false, fmt.Errorf("T-break: key.Save: first statement is not the Lstat guard")
+	}
+	init, ok := guard.Init.(*ast.AssignStmt)
+	if !ok || len(init.Lhs) != 2 || len(init.Rhs) != 1 || sfExpr(init.Lhs[0]) != "info" || sfExpr(init.Lhs[1]) != "err" || sfExpr(init.Rhs[0]) != "os.Lstat(filePath)" {
+		return false, false, false, false, fmt.Errorf("T-break: key.Save: guard does not start with `info, err := os.Lstat(filePath)`")
+	}
+	if c := sfExpr(guard.Cond); c != "err==nil&&!info.Mode().IsRegular()" {
+		return false, false, false, false, fmt.Errorf("T-break: key.Save: guard condition is %q, expected err==nil&&!info.Mode().IsRegular()", c)
+	}
+	retIn, ok1 := guard.Body.List[0].(*ast.ReturnStmt)
+	retRep, ok2 := stmts[1].(*ast.ReturnStmt)
+	if !ok1 || !ok2 || len(retIn.Results) != 1 || len(retRep.Results) != 1 ||
+		sfExpr(retIn.Results[0]) != "saveInPlace(filePath,t,secure)" || sfExpr(retRep.Results[0]) != "saveReplace(filePath,t,secure)" {
+		return false, false, false, false, fmt.Errorf("T-break: key.Save: the guard must return saveInPlace(filePath,t,secure) and everything else saveReplace(filePath,t,secure)")
+	}
+	// nobody else calls the in-place writer
+	n := 0
+	ast.Inspect(ks.file, func(nd ast.Node) bool {
+		if c, ok := nd.(*ast.CallExpr); ok && sfChain(c.Fun) == "saveInPlace" {
+			n++
+		}
+		return true
+	})
+	if n != 1 {
+		return false, false, false, false, fmt.Errorf("T-break: saveInPlace is called %d times in common/key/store.go", n)
+	}
+	ri, ra, rs, err := sfWriterShape(ks, "saveReplace")
+	if err != nil {
+		return false, false, false, false, err
+	}
+	ii, _, is, err := sfWriterShape(ks, "saveInPlace")
+	if err != nil {
+		return false, false, false, false, err
+	}
+	if ri || !ii {
+		return false, false, false, false, fmt.Errorf("T-break: saveReplace / saveInPlace do not have the replace / in-place shapes")
+	}
+	return false, ra, rs && is, true, nil
+}
+
 func genSaveFlags(repo string) (string, error) {
 	ks, err := parseFile(repo, "common/key/store.go")
 	if err != nil {
@@ -194,38 +319,7 @@ func genSaveFlags(repo string) (string, error) {
 			return "", fmt.Errorf("T-break: saveflags: no Save call found for %s", f)
 		}
 	}
-	// (2) key.Save: secure => fs.CreateSecureFile, else os.Create; nothing else opens the file
-	save := sfFindFunc(ks, "", "Save")
-	if save == nil {
-		return "", fmt.Errorf("T-break: saveflags: func Save not found")
-	}
-	okSave := false
-	ast.Inspect(save.Body, func(n ast.Node) bool {
-		if is, ok := n.(*ast.IfStmt); ok {
-			if id, ok := is.Cond.(*ast.Ident); ok && id.Name == "secure" && is.Else != nil {
-				th, el := "", ""
-				ast.Inspect(is.Body, func(n ast.Node) bool {
-					if c, ok := n.(*ast.CallExpr); ok {
-						th += sfChain(c.Fun) + ";"
-					}
-					return true
-				})
-				ast.Inspect(is.Else, func(n ast.Node) bool {
-					if c, ok := n.(*ast.CallExpr); ok {
-						el += sfChain(c.Fun) + ";"
-					}
-					return true
-				})
-				if th == "fs.CreateSecureFile;" && el == "os.Create;" {
-					okSave = true
-				}
-			}
-		}
-		return true
-	})
-	if !okSave {
-		return "", fmt.Errorf("T-break: saveflags: key.Save is not `if secure { fs.CreateSecureFile } else { os.Create }`")
-	}
+	// (2) the writers of key.Save: secure => fs.CreateSecureFile, else os.Create (checked by sfSaveShape below)
 	// (3) fs.CreateSecureFile: os.Create; fd.Close; chmodFunc(file, rwFilePermission); os.OpenFile(file, os.O_RDWR, _)
 	fsf, err := parseFile(repo, "internal/fs/fs.go")
 	if err != nil {
@@ -279,7 +373,7 @@ func genSaveFlags(repo string) (string, error) {
 			return "", fmt.Errorf("T-break: saveflags: no bolt.Open call in %s", f)
 		}
 	}
-	inPlace, atomicRename, secureOnWritten, err := sfSaveShape(ks)
+	inPlace, atomicRename, secureOnWritten, onlyNonRegular, err := sfSaveShape(ks)
 	if err != nil {
 		return "", fmt.Errorf("T-break: saveflags: %w", err)
 	}
@@ -301,5 +395,7 @@ func genSaveFlags(repo string) (string, error) {
 	fmt.Fprintf(&sb, "Definition save_in_place : bool := %s.\nDefinition save_atomic_rename : bool := %s.\n", bb(inPlace), bb(atomicRename))
 	sb.WriteString("(* the path handed to fs.CreateSecureFile is the file the encoder writes into and the file that ends\n   up at the target: the owner-only mode is on it before the first content byte and survives the rename *)\n")
 	fmt.Fprintf(&sb, "Definition save_secure_on_written_file : bool := %s.\n", bb(secureOnWritten))
+	sb.WriteString("(* the three flags above describe what happens to a target that is absent or a regular file (every file\n   of the key store). true: a writer that truncates its target in place is reachable only behind\n   `os.Lstat(target)` succeeding on something that is NOT a regular file (symlink, device, pipe) *)\n")
+	fmt.Fprintf(&sb, "Definition save_in_place_only_non_regular : bool := %s.\n", bb(onlyNonRegular))
 	return sb.String(), nil
 }
